@@ -33,6 +33,11 @@ type Outcome struct {
 	Symptoms []Symptom
 	// Overlaps: components that had overlapping read/write requests in flight below them.
 	Overlaps []Overlap
+	// Internals: State projections for CacheInternals.tla (RunCaseInternals only); Drifts: State
+	// fields the projection needs and did not find.
+	Internals []any
+	Drifts    []Drift
+	IntStats  map[string]int
 }
 
 // Symptom is one failure seen by the in-driver oracle.
@@ -49,7 +54,11 @@ type untilRunner interface {
 }
 
 // RunCase builds the stack, runs the workload to quiescence and returns the records.
-func RunCase(run int, c Case) (out Outcome) {
+func RunCase(run int, c Case) Outcome { return RunCaseInternals(run, c, 0) }
+
+// RunCaseInternals is RunCase that also projects every component's State after every
+// `every`-th handled engine event and at the end (every = 0: no projection).
+func RunCaseInternals(run int, c Case, every int) (out Outcome) {
 	st, err := BuildStack(c.Stack.Clone())
 	if err != nil {
 		out.Err = err.Error()
@@ -58,6 +67,10 @@ func RunCase(run int, c Case) (out Outcome) {
 	a := NewAgent(st, c.Work)
 	var overlaps []Overlap
 	st.WatchInterfaces(&overlaps)
+	var ir *intRecorder
+	if every > 0 {
+		ir = newIntRecorder(st, a, c.Work.Base, every, run)
+	}
 	a.recs = append(a.recs, evConfig{E: "config", Run: run, Size: c.Work.Size, Requester: string(a.mem.AsRemote()), Desc: st.Cfg.Describe()})
 	func() {
 		defer func() {
@@ -88,6 +101,14 @@ func RunCase(run int, c Case) (out Outcome) {
 	}
 	out.Records = append(out.Records, evQuiesce{E: "quiesce", Unissued: out.Unissued, Livelock: out.Livelock, T: out.EndTimeNs})
 	out.Symptoms = oracle(&c.Work, out)
+	if ir != nil && out.Panic == "" {
+		// the engine has stopped; the structures must be empty when every request was answered
+		// and no control programme left a component paused
+		ir.sample(true, len(out.Outstanding) == 0 && out.Unissued == 0 && !out.Livelock && c.Work.Flush == nil)
+		out.Internals, out.Drifts = ir.recs, ir.drifts()
+		out.IntStats = map[string]int{}
+		ir.stats(out.IntStats)
+	}
 	return out
 }
 
